@@ -20,7 +20,7 @@ GEN = "CONSTANTS MaxLines = %d\n Sim = %s\nINIT Init\nNEXT Next\nINVARIANT Emit\
 WORDS = []
 WRITERS = ["html", "latex", "beamer", "memoir", "fodt", "opml", "itmz"]
 MODES = [("mmd", docs.STD), ("compat", docs.COMPAT)]
-NODEF = ("<div>", "[lnk]: http://x", "[x]: y \"t\"", "[>abbr]: Abbr", "[#cite]: Cite", "[^fn]: Note", "[?gl]: Term", "Key: value", "---", "", "{{TOC}}", "<!--", "-->")
+NODEF = ("<div>", "[lnk]: http://x", "[cap]: http://x", "[x]: y \"t\"", "[>abbr]: Abbr", "[#cite]: Cite", "[^fn]: Note", "[?gl]: Term", "Key: value", "---", "", "{{TOC}}", "<!--", "-->")
 
 
 def word_counts(fmt, out, words):
@@ -111,7 +111,7 @@ def run(tier, seed):
     table, seqs, seqs3, sim, seqs4 = gen_docs(tier, seed)
     exe = build.build_harness("trace")
     global WORDS
-    WORDS = sorted({e["w"] for e in table if e["w"]})
+    WORDS = sorted({e["w"] for e in table if e["w"]} | {e["wc"] for e in table if e.get("wc")})
     corp = docs.corpus()
     traced = [("seq", s) for s in seqs] + [("seq", s) for s in (rnd.sample(seqs3, 3000) if tier == "quick" else seqs3)] + [("seq", s) for s in sim]
     alldocs = [("seq", s) for s in seqs + seqs3 + sim + seqs4]
@@ -176,6 +176,8 @@ def run(tier, seed):
     ix = {e["t"]: i + 1 for i, e in enumerate(table)}
     short = [s for s in seqs if len(s) <= 2]
     edocs += [("seq", [ix["Key: value"], ix[""]] + s) for s in short] + [("seq", [ix["a | b"], ix["--|:-:"], ix["| c |"]] + s) for s in short]
+    # ... and followed by a reference definition for the label the bracket lines use
+    edocs += [("seq", s + [ix[""], ix["[cap]: http://x"]]) for s in short]
     # metadata that re-configures the conversion (format switch, header levels, languages, inserted headers/footers)
     CONF = ["latex mode: beamer", "latex mode: memoir", "latexmode: article", "base header level: 3", "html header level: 4", "latex header level: -1", "odf header level: 2", "language: de", "quotes language: fr",
             "css: x.css", "html header: <script></script>", "html footer: <!-- f -->", "latex config: article", "latex input: pre", "latex footer: post", "bibtex: refs", "biblio style: plain", "xhtml header: <x/>",
@@ -204,7 +206,7 @@ def run(tier, seed):
                 nonblank = d[0] == "seq" and table[d[1][0] - 1]["t"] not in NODEF and ev["fmt"] == 0 and not (ev["ext"] & 1)
                 fname = docs.FMTNAME[ev["fmt"]]; isseq = d[0] in ("seq", "seqnf")
                 ctrace.append(dict(e="conv", null=ev["null"], diag=ev["diag"], len=ev["len"], nonblank=nonblank, fmt=ev["fmt"], ext=ev["ext"], doc=di,
-                                   seq=list(d[1]) if isseq else [], cnt=word_counts(fname, ev.get("out"), WORDS) if isseq else {}, carries=fname in ("opml", "itmz"))); nconv += 1
+                                   seq=list(d[1]) if isseq else [], cnt=word_counts(fname, ev.get("out"), WORDS) if isseq else {}, carries=fname in ("opml", "itmz"), compat=bool(ev["ext"] & 1))); nconv += 1
             elif ev.get("e") in ("exit", "aborted", "timeout"):
                 # which document was being converted: the last `src` line at or before the command's line in this segment
                 sl = ev.get("sline", 0); dj = -1
